@@ -40,8 +40,8 @@ LEAN = {"module": "Pygom.Props.C07",
         "required": ["Pygom.C07.sens_index_spec", "Pygom.C07.sens_index_spec_IV", "Pygom.C07.grad_is_chain_rule",
                      "Pygom.C07.gradIV_is_chain_rule", "Pygom.C07.grad_is_chain_rule_partial",
                      "Pygom.C07.grad_order_counterexample", "Pygom.C07.model_variant"]}
-BUDGET = {"quick": {"cases": 420, "exact": 40, "per_batch": 12, "history": 448, "timedep": 144, "select": 144},
-          "thorough": {"cases": 6000, "exact": 300, "per_batch": 20, "history": 4800, "timedep": 1440, "select": 1440}}
+BUDGET = {"quick": {"cases": 420, "exact": 40, "per_batch": 12, "history": 448, "timedep": 144, "select": 144, "large": 10, "scaled": 12},
+          "thorough": {"cases": 6000, "exact": 300, "per_batch": 20, "history": 4800, "timedep": 1440, "select": 1440, "large": 100, "scaled": 120}}
 RULE = ("random bounded models and catalogue models as in C06; theta, x0, grids; 1-3 observed states in any order; target_param "
         "subsets in any order; target_state subsets in any order; five loss classes (non-unit weights for Square and Normal "
         "only, whose cost uses them); integrator methods lsoda / vode / ivode / dopri5 / dop853 on a share of cases; plus "
@@ -63,7 +63,15 @@ RULE = ("random bounded models and catalogue models as in C06; theta, x0, grids;
         "subset-permuted (3 x 4 x 4 combinations in turn) on time-dependent, catalogue and random models; boundary values (tags "
         "boundary:*): weight exactly 0 or exactly 1 for one observed state, weights differing between states (per-state vector or n x p "
         "matrix), one observation time (one observed state: several states with one time are rejected by the unchanged constructor), "
-        "a parameter exactly 0 at the evaluation point; jac and jacIV judged in every gradient case (tags select:*, td-model:*, td-shape:*).")
+        "a parameter exactly 0 at the evaluation point; jac and jacIV judged in every gradient case (tags select:*, td-model:*, td-shape:*).  "
+        "ROUND D gradient cases: `large` (10 quick) - losscommon.LARGE_CATALOGUE in turn (staged progression chains 11 x 10, 12 x 9, 14 x 8, "
+        "10 x 11 with death and inflow; 4-patch SIR with coupling 12 x 9: num_state x num_param = 104 .. 112), a late stage / another patch "
+        "observed, free variables: all parameters + 3 initial values / 3-5 parameters + all initial values / 2-4 parameters + 2 initial "
+        "values (non-declared order); sensitivity, gradient, jac, jacIV, sensitivityIV judged as everywhere; `scaled` (12 quick) - head-count "
+        "models (SIR N = 1e6 / 1e8, SIR_norm beta = 5e-9), finite-difference steps relative to the variable, comparison relative per entry down "
+        "to the natural size of the entry (cost / |variable| for gradients, max |prediction| / |variable| for Jacobians), every other case "
+        "with weights of 1/N (tags family:large, family:scaled, num_state*num_param=*).  A fifth of the history scripts run on a time-dependent "
+        "model with the clock of the loss object moved away from zero (losshist.py).")
 ASSUMPTIONS = ["integrating the variational (forward sensitivity) system yields the derivative of the flow in the parameters and the "
                "initial values (classical, not in Mathlib): hypothesis `hsens` of grad_is_chain_rule; validated per case against "
                "finite differences of an independent reference",
@@ -246,6 +254,56 @@ def _select_case(r, i):
     return _restrict_classes(r, _boundary(r, case, force="weights" if om == 0 and r.random() < 0.6 else None))
 
 
+def _large_case(r, i):
+    """LARGE models (losscommon.LARGE_CATALOGUE: num_state x num_param between 104 and 112 - staged progression chains with per-stage
+    rates, a 4-patch SIR with coupling): whatever algorithm an entry point chooses by the SIZE of the model, what it returns must be the
+    derivative of the cost.  The free variables are kept few where the finite-difference oracle would be slow (the model stays large)."""
+    names = sorted(LC.LARGE_CATALOGUE)
+    s = LC.gen_setup_large(r, name=names[i % len(names)])
+    states, params = s["states"], s["params"]
+    late = [k for k in states[len(states) // 2:]]
+    if not any(o in late for o in s["obs"]):
+        s["obs"][r.randrange(len(s["obs"]))] = r.choice([k for k in late if k not in s["obs"]])     # a late stage / another patch: every rate upstream matters
+    mode = (i // len(names)) % 3
+    if mode == 0:
+        tp, ts = None, _subset_not_ascending(r, r.sample(states, 3))
+    elif mode == 1:
+        tp, ts = _subset_not_ascending(r, r.sample(params, r.randint(3, 5))), None
+    else:
+        tp, ts = _subset_not_ascending(r, r.sample(params, r.randint(2, 4))), _subset_not_ascending(r, r.sample(states, 2))
+    case = _finish_case(r, s, tp, ts)
+    case["family"] = "large"
+    case["methods"] = []
+    return _restrict_classes(r, case)
+
+
+def _scaled_case(r, i):
+    """HEAD COUNTS (losscommon.SCALED_CATALOGUE: N = 1e6 / 1e8, a mass-action rate of 5e-9 per person): finite-difference steps relative
+    to the variable (a parameter of 5e-9 must not be stepped by 1e-4), every comparison relative per entry down to the natural size of
+    the entry (cost / |variable|, |prediction| / |variable|); half of the cases with weights of 1e-6 .. 1e-8 (counts normalised in the
+    loss) and sigma of the size of the counts, so that the cost is of order one while the states are of order N"""
+    names = sorted(LC.SCALED_CATALOGUE)
+    s = LC.gen_setup_scaled(r, name=names[i % len(names)])
+    states, params = s["states"], s["params"]
+    free = [k for k in params if k not in s["fixed_params"]]
+    tp = _non_identity_perm(r, free) if r.random() < 0.5 else list(free)
+    ts = [None, _subset_not_ascending(r, states), _non_identity_perm(r, states)][(i // len(names)) % 3]
+    case = _finish_case(r, s, tp, ts)
+    case["family"] = "scaled"
+    case["methods"] = []
+    if i % 2 == 1:
+        N = LC.SCALED_CATALOGUE[s["model"]["name"]]["x0"][0][1]
+        sc = lambda v, c: (None if v is None else [sc(x, c) for x in v] if isinstance(v, list) else float("%.6g" % (v * c)))
+        case["weights"] = ["scalar", float("%.3g" % (r.uniform(0.5, 2.0) / N))] if case["weights"][0] == "none" else [case["weights"][0], sc(case["weights"][1], 1.0 / N)]
+        case["extreme"] = True
+    else:
+        if case["spreads"]["Normal"][0] != "default":
+            N = LC.SCALED_CATALOGUE[s["model"]["name"]]["x0"][0][1]
+            sc = lambda v, c: ([sc(x, c) for x in v] if isinstance(v, list) else float("%.6g" % (v * c)))
+            case["spreads"]["Normal"][1] = sc(case["spreads"]["Normal"][1], 0.05 * N)
+    return _restrict_classes(r, case)
+
+
 def _exact_case(r, per_batch):
     items = []
     for _ in range(per_batch):
@@ -285,6 +343,10 @@ def make_cases(rng, tier, budget):
     for i in range(budget.get("select", 0)):
         r = random.Random(rng.getrandbits(64))
         cases.append(_select_case(r, i + shift2))
+    for i in range(budget.get("large", 0)):         # round d, drawn after everything above
+        cases.append(_large_case(random.Random(rng.getrandbits(64)), i + shift2))
+    for i in range(budget.get("scaled", 0)):
+        cases.append(_scaled_case(random.Random(rng.getrandbits(64)), i + shift2))
     return cases
 
 
@@ -292,7 +354,8 @@ def search_cases(rng, tier, budget):
     return ([_grad_case(random.Random(rng.getrandbits(64))) for _ in range(budget["cases"] * 2)] +
             [LH.gen_history(random.Random(rng.getrandbits(64)), i, HIST_JUDGED) for i in range(budget.get("history", 0) * 2)] +
             [_td_case(random.Random(rng.getrandbits(64)), i) for i in range(budget.get("timedep", 0) * 2)] +
-            [_select_case(random.Random(rng.getrandbits(64)), i) for i in range(budget.get("select", 0) * 2)])
+            [_select_case(random.Random(rng.getrandbits(64)), i) for i in range(budget.get("select", 0) * 2)] +
+            [_large_case(random.Random(rng.getrandbits(64)), i) for i in range(budget.get("large", 0) * 2)])
 
 
 # --------------------------------------------------------------------------- exact batches
@@ -416,7 +479,8 @@ def classify(site, cls, case, states, params, got, fd):
             bad = np.abs(g - f) > 1e-3 * (1 + np.abs(f))
             if bad[fp.index(wp)] and int(bad.sum()) == 1:
                 return "%s:%s:wrong-value:component-of-the-time-windowed-parameter" % (site, cls)
-    return _classify(site, cls, case, states, params, got, fd, order_label=not td) + (":time-dependent-model" if td else "")
+    return (_classify(site, cls, case, states, params, got, fd, order_label=not td and m["src"] != "large") + (":time-dependent-model" if td else "") +
+            {"large": ":large-model", "scaled": ":head-count-model"}.get(m["src"], ""))
 
 
 def _classify(site, cls, case, states, params, got, fd, order_label=True):
@@ -458,6 +522,12 @@ def run_grad(case):
     oc = LC.order_class(states, obs) if q > 1 else "single"
     if s["model"]["src"] == "td":
         tags += ["td-model:" + s["model"]["name"], "td-shape:" + s["model"]["shape"]]
+    if s["model"]["src"] in ("large", "scaled"):
+        tags += ["%s-model:%s" % (s["model"]["src"], s["model"]["name"]), "num_state*num_param=%d" % (len(states) * len(params))]
+    if case.get("extreme"):
+        tags.append("extreme-weights")
+    fd_floor = s.get("fd_floor", 0.05)             # absolute floor of the finite-difference step (0 for head-count models: steps relative to the variable)
+    scale_free = s.get("fd_floor") is not None     # comparisons relative per entry down to the natural size of the entry
     if case.get("family"):
         tags.append("family:" + case["family"])
     tags += ["boundary:" + b for b in case.get("boundary", [])]
@@ -501,7 +571,7 @@ def run_grad(case):
             return None, None, None
         hs = {}
         for k in ks:
-            h = hrel * max(abs(u[k]), 0.05)
+            h = hrel * max(abs(u[k]), fd_floor)
             hs[k] = h
             pts = []
             for d in (h, -h, h / 2, -h / 2):
@@ -617,14 +687,23 @@ def run_grad(case):
                 return (richardson([t[i, idx[a]] for t in p1], h1)[0], richardson([t[i, idx[a]] for t in p2], h2)[0])
             return f
 
-        def compare(site, got, fd, fd_err, tol_extra=0.0, rel=1e-4, refine=None):
+        def nat(kind, with_x0):
+            """natural size of the entries (scale-free cases): gradient entry k ~ cost / |u_k|, Jacobian entry (i, a + b q) ~ max |yhat| / |u_b|"""
+            if not scale_free:
+                return 1.0
+            u = np.abs(np.array(u0 if with_x0 else u0[:r], float))
+            if kind == "grad":
+                return scale / u
+            return np.tile(np.repeat(float(np.max(np.abs(base_p[:, idx]))) / u, q), n)
+
+        def compare(site, got, fd, fd_err, tol_extra=0.0, rel=1e-4, refine=None, floor=1.0):
             got = np.asarray(got, float).ravel()
             if got.shape != fd.shape:
                 viol.append({"what": "%s of %sLoss has %d entries for %d free variables" % (site, cls, got.size, fd.size),
                              "signature": "%s:%s:length" % (site, cls), "detail": "got %s fd %s" % (got.tolist(), fd.tolist())})
                 return
-            ok_fd = fd_err <= 1e-2 * (1 + np.abs(fd))           # the difference quotient itself must have converged
-            tol = rel * (1 + np.abs(fd)) + tol_extra
+            ok_fd = fd_err <= 1e-2 * (floor + np.abs(fd))           # the difference quotient itself must have converged
+            tol = rel * (floor + np.abs(fd)) + tol_extra
             bad = (np.abs(got - fd) > tol) & ok_fd
             if np.any(bad) and refine is not None:
                 # confirm on two finer levels before anything is reported (see `finer`)
@@ -636,11 +715,11 @@ def run_grad(case):
                         continue
                     r1, r2 = rr
                     fd[j] = r2
-                    ok_fd[j] = abs(r2 - r1) <= 0.1 * rel * (1 + abs(r2))
+                    ok_fd[j] = abs(r2 - r1) <= 0.1 * rel * ((floor if np.isscalar(floor) else floor[j]) + abs(r2))
                 for j in np.nonzero(bad)[0][64:]:
                     ok_fd[j] = False
                 tags.append("fd-refined:" + site.split("/")[0])
-                tol = rel * (1 + np.abs(fd)) + tol_extra
+                tol = rel * (floor + np.abs(fd)) + tol_extra
                 bad = (np.abs(got - fd) > tol) & ok_fd
             if not np.all(ok_fd):
                 tags.append("fd-not-converged:" + site.split("/")[0])
@@ -659,7 +738,7 @@ def run_grad(case):
                 g = call()
                 if site == "sensitivity":
                     g_sens = g
-                compare(site + "/reference-cost", g, g_ref, g_err, refine=refine_grad(False))
+                compare(site + "/reference-cost", g, g_ref, g_err, refine=refine_grad(False), floor=nat("grad", False))
             except Exception as exc:
                 viol.append({"what": "%s of %sLoss raised %s: %s" % (site, cls, type(exc).__name__, str(exc)[:200]),
                              "signature": raise_sig(site, exc), "detail": json.dumps({k: case[k] for k in ("target_param", "target_state", "weights")}) + " obs=%s" % obs})
@@ -668,15 +747,15 @@ def run_grad(case):
             try:
                 gb, eb, hb = [], [], []
                 for k in range(r):
-                    d_, e_, h = fd_ladder(obj.cost, list(u0[:r]), k, 1e-2 * max(abs(u0[k]), 0.05), scale)
+                    d_, e_, h = fd_ladder(obj.cost, list(u0[:r]), k, 1e-2 * max(abs(u0[k]), fd_floor), scale)
                     gb.append(d_); eb.append(e_); hb.append(h)
-                compare("sensitivity/own-cost", g_sens, np.array(gb), np.array(eb), tol_extra=1e-7 * scale / np.array(hb), rel=1e-3)
+                compare("sensitivity/own-cost", g_sens, np.array(gb), np.array(eb), tol_extra=1e-7 * scale / np.array(hb), rel=1e-3, floor=nat("grad", False))
             except Exception as exc:
                 viol.append({"what": "cost of %sLoss raised %s during differencing" % (cls, type(exc).__name__), "signature": "cost:%sLoss:raises:%s" % (cls, type(exc).__name__), "detail": str(exc)[:300]})
             if case["full_output"]:
                 try:
                     gfo = obj.sensitivity(u0[:r], full_output=True)[0]
-                    compare("sensitivity(full_output)/reference-cost", gfo, g_ref, g_err, refine=refine_grad(False))
+                    compare("sensitivity(full_output)/reference-cost", gfo, g_ref, g_err, refine=refine_grad(False), floor=nat("grad", False))
                 except Exception as exc:
                     viol.append({"what": "sensitivity(full_output=True) of %sLoss raised %s: %s" % (cls, type(exc).__name__, str(exc)[:200]),
                                  "signature": "sensitivity-full_output:%sLoss:raises:%s" % (cls, type(exc).__name__), "detail": ""})
@@ -700,7 +779,7 @@ def run_grad(case):
                 if J.shape != Jref.shape:
                     viol.append({"what": "jac has shape %s, expected %s" % (J.shape, Jref.shape), "signature": "jac:shape", "detail": ""})
                 else:
-                    compare("jac/reference-trajectory", J.ravel(), Jref.ravel(), Jerr.ravel(), refine=refine_jac(False))
+                    compare("jac/reference-trajectory", J.ravel(), Jref.ravel(), Jerr.ravel(), refine=refine_jac(False), floor=nat("jac", False))
             except Exception as exc:
                 viol.append({"what": "jac raised %s: %s" % (type(exc).__name__, str(exc)[:200]), "signature": "jac:raises:%s" % type(exc).__name__, "detail": ""})
         # ---- parameters and initial values
@@ -722,18 +801,18 @@ def run_grad(case):
                 if J.shape != Jref.shape:
                     viol.append({"what": "jacIV has shape %s, expected %s" % (J.shape, Jref.shape), "signature": "jacIV:shape", "detail": ""})
                 else:
-                    compare("jacIV/reference-trajectory", J.ravel(), Jref.ravel(), Jerr.ravel(), refine=refine_jac(True))
+                    compare("jacIV/reference-trajectory", J.ravel(), Jref.ravel(), Jerr.ravel(), refine=refine_jac(True), floor=nat("jac", True))
             except Exception as exc:
                 viol.append({"what": "jacIV raised %s: %s" % (type(exc).__name__, str(exc)[:200]),
                              "signature": ("jacIV:target_state-raises" if ts is not None and isinstance(exc, TypeError) else "jacIV:raises:%s" % type(exc).__name__), "detail": ""})
         try:
             gi = obj.sensitivityIV(list(u0))
-            compare("sensitivityIV/reference-cost", gi, gi_ref, gi_err, refine=refine_grad(True))
+            compare("sensitivityIV/reference-cost", gi, gi_ref, gi_err, refine=refine_grad(True), floor=nat("grad", True))
             gb, eb, hb = [], [], []
             for k in range(len(u0)):
-                d_, e_, h = fd_ladder(obj.costIV, list(u0), k, 1e-2 * max(abs(u0[k]), 0.05), scale)
+                d_, e_, h = fd_ladder(obj.costIV, list(u0), k, 1e-2 * max(abs(u0[k]), fd_floor), scale)
                 gb.append(d_); eb.append(e_); hb.append(h)
-            compare("sensitivityIV/own-costIV", gi, np.array(gb), np.array(eb), tol_extra=1e-7 * scale / np.array(hb), rel=1e-3)
+            compare("sensitivityIV/own-costIV", gi, np.array(gb), np.array(eb), tol_extra=1e-7 * scale / np.array(hb), rel=1e-3, floor=nat("grad", True))
         except Exception as exc:
             viol.append({"what": "sensitivityIV of %sLoss raised %s: %s" % (cls, type(exc).__name__, str(exc)[:200]),
                          "signature": raise_sig("sensitivityIV", exc), "detail": json.dumps({k: case[k] for k in ("target_param", "target_state", "weights")}) + " obs=%s" % obs})
